@@ -224,7 +224,7 @@ func KConsistent(p *core.Prog, r *core.Report) {
 			continue
 		}
 		T := core.NamedOf(top.Signature.Recv().Type())
-		if T == nil || !containerTypes[T.Obj().Name()] {
+		if T == nil || !containerTypes[core.KnownTypeName(T)] {
 			continue
 		}
 		recv := top.Params[0]
@@ -483,7 +483,7 @@ func leafGroupPaths(p *core.Prog, r *core.Report) {
 		if T == nil {
 			continue
 		}
-		outer := T.Obj().Name()
+		outer := core.KnownTypeName(T)
 		switch outer {
 		case "SchemaValidator", "ParamValidator", "HeaderValidator":
 			// (the items validator re-paths its groups with SetPath for every element: not covered)
